@@ -13,7 +13,8 @@ LEVEL_TEXT = {
            "routes and time), C01_SyncReaches (bidirectional exchange until quiet reaches the common state). Exhaustive only "
            "within the model bounds; histories are sampled.",
     "C02": COMMON + "Predicates: C02_AppliedComplete, C02_RefreshApplies (applied = the spec's causally complete set, computed "
-           "by TLC from the raw items), C02_RefreshEqualsReload (fresh replica on a byte copy), C02_HeldBackThenApplied; "
+           "by TLC from the raw items), C02_RefreshEqualsReload (fresh replica on a byte copy), C02_HeldBackThenApplied, "
+           "C02_HeldBackInvisible (heads and committed trees are those of the applied blocks alone); "
            "file-by-file delivery in seeded permutations with a refresh after every file; the in-memory object cache is part "
            "of the model (MC_cache.cfg) and of the histories (`cache` profile: bodies held only in memory must not make a "
            "block complete).",
@@ -29,9 +30,10 @@ LEVEL_TEXT = {
     "C06": COMMON + "Function level: TLC shows the transcription of merge_arrays satisfies the C06 relation on every ordered "
            "pair of the bound (ArrayMergeMC), and the real merge_arrays is checked against the relation on every pair "
            "(exhaustive within the bound); system level: C06_ArrayView (no duplication, no ghosts, no loss, no invention, "
-           "order) on every observation.",
+           "order) on every observation and C06_EditUnderConflict (an edit made during the conflict loses nothing).",
     "C07": COMMON + "Predicate C07_Resolve (not in conflict afterwards, adopts the chosen revision incl. deletions, choosing "
-           "the winner changes nothing); propagation through C01 on histories with resolutions; model property P_C07_Resolve.",
+           "the winner changes nothing); C07_Propagates / C07_ResolvedConverge (C01's predicates on the histories in which "
+           "something was resolved); model property P_C07_Resolve.",
     "C08": COMMON + "Every API call runs under a watchdog in a per-run rayon pool of size 1/2/4/16; C08_Returns demands "
            "outcome ok or error (a timeout or panic is a violation) for every operation of the alphabet appended to sampled "
            "model states (enabled or not) and for every call of every history. A deadlock that needs a particular "
